@@ -173,12 +173,14 @@ def entry_case(rng, tmpdir, i):
             return pd.Series([None if r is None else r for r in offered], dtype=NestedDtype(st)).array
         if entry in ("pack_lists", "from_lists"):
             present = [r if r is not None else {k: [] for k in names} for r in offered]
+            n_cuts = chunk_rng.randint(1, 2)         # the same number of chunks in every column, cut at the column's own rows
+
             def list_col(name, ty):
                 whole = pa.array([r[name] for r in present], type=pa.list_(gen.TYPES[ty]))
                 if layout == "one" or len(present) < 2:
                     return whole
                 # every column chunked on its OWN boundaries (the combine branch of pack_lists), or all alike (the aligned branch)
-                cuts = sorted(chunk_rng.sample(range(0, len(present) + 1), chunk_rng.randint(1, 2))) if layout == "split" else [len(present) // 2]
+                cuts = sorted(chunk_rng.sample(range(0, len(present) + 1), n_cuts)) if layout == "split" else [len(present) // 2]
                 bounds = [0] + cuts + [len(present)]
                 return pa.chunked_array([whole.slice(a, b - a) for a, b in zip(bounds, bounds[1:])], type=whole.type)
             df = pd.DataFrame({name: pd.Series(list_col(name, ty), dtype=pd.ArrowDtype(pa.list_(gen.TYPES[ty]))) for name, ty in schema})
@@ -336,7 +338,7 @@ def history_cases(rng, n_hist, max_len):
             op = rng.choice(STEP_OPS)
             holder = {}
             with Born() as born:
-                c = op(rng, inp)
+                c = ao.run_op(op, rng, inp)
             c = with_monitor(c, born)
             c["stream"] = "history"
             c["input"]["history"] = {"id": h, "step": step}
